@@ -75,7 +75,7 @@ class OpsMixin:
                 if isinstance(src, dict):
                     d.update(src)
                 continue
-            kv = self.eval(k, frame)
+            kv = self.hash_check(self.eval(k, frame), k, frame)
             try:
                 d[kv] = self.eval(v, frame)
             except TypeError:
@@ -274,11 +274,20 @@ class OpsMixin:
                 return Unknown("set of abstract")
         return v
 
+    def hash_check(self, key, node, frame):
+        """dictionary keys / set members must be hashable: lists, dicts, sets and bytearrays are not"""
+        k = norm_int(key)
+        if isinstance(k, (list, dict, set, SymDict, SymList)) or (isinstance(k, (Buf, View, SymBytes)) and getattr(k, "pytype", None) in (None, "bytearray")
+                                                                  and not isinstance(k, (View, SymBytes))):
+            raise PyRaise(Instance(self.bclasses["TypeError"], ("unhashable type: '%s'" % self.kind_of(k),)), node, frame.where(node))
+        return key
+
     def ex_DictComp(self, e, frame):
         out = {}
 
         def emit(fr):
-            out[self.eval(e.key, fr)] = self.eval(e.value, fr)
+            k = self.hash_check(self.eval(e.key, fr), e.key, fr)
+            out[k] = self.eval(e.value, fr)
 
         ok, _ = self.comp(e.generators, frame, emit)
         if ok:
@@ -689,6 +698,8 @@ class OpsMixin:
             return False
         if isinstance(a, dyn) or isinstance(b, dyn):
             return None
+        if isinstance(a, bool) != isinstance(b, bool):
+            return False        # True / False are singletons of their own type: `0 is False` is false
         if isinstance(a, (int, str)) and isinstance(b, (int, str)):
             return a == b
         return a is b
@@ -855,7 +866,7 @@ class OpsMixin:
         if isinstance(v, bytes):
             return "bytes"
         if isinstance(v, (Buf, View, SymBytes)):
-            return "bytearray"
+            return getattr(v, "pytype", None) or "bytearray"
         if isinstance(v, (list, SymList)):
             return "list"
         if isinstance(v, (dict, SymDict)):
